@@ -68,7 +68,7 @@ func exportedEnough(t types.Type, pkg *types.Package) bool {
 
 // specFor builds a valueSpec for a value v of Go type t living in state st.
 func (vc *VC) specFor(v Term, t types.Type, st *State, depth int) (*valueSpec, bool) {
-	if depth > 3 {
+	if depth > 6 {
 		return nil, false
 	}
 	if _, ok := vc.tt.isOpaque(t); ok {
@@ -331,6 +331,7 @@ func Replay(ctx *Ctx, fres *FuncResult, o *Obligation, secs int) ReplayOutcome {
 			watch = append(watch, WatchTerm{"out", t})
 		}
 	}
+	vc.declsCache = "" // new sorts / heaps may have been registered while building the value specs
 	o2 := *o
 	o2.Watch = watch
 	for _, sp := range specs {
